@@ -107,6 +107,19 @@ CHECKS = [
         "exhaustively enumerated axis space.",
         "Lean 4 proof over a hand-written model; correspondence (differential) tie with exhaustive axis enumeration; failing-input search",
         "DESIGN.md §7 C08"),
+    chk("C04",
+        "Lean theorems: for every built-in intermediate column (chunk kernel, combine kernel, resolved fill) merging the block values "
+        "of ANY ordered split of a group's members (empty and all-NaN parts allowed) gives the block value of the concatenation "
+        "(combine_parts), absent / all-NaN blocks are neutral, any reduction tree gives the same value, mean / var / std finalizers on "
+        "the merged 2- and 3-column intermediates equal the NumPy kernels; max / min / nanmax / nanmin keep the law with the finite "
+        "integer-dtype fills when the data are within the dtype range (shown necessary by a counterexample); registry tie: every entry "
+        "of the live AGGREGATIONS with a chunk function is literally one of the hand-written proven blueprints and "
+        "_initialize_aggregation resolves its fills as assumed (decide over the regenerated tables; an edited combine / fill / "
+        "finalizer breaks the build); user-defined Aggregation objects: for an ARBITRARY resolved blueprint the chunked result is the "
+        "tree fold of the per-block values with the user's combine kernel (userAggregation_machinery), with the column laws it is the "
+        "single-block / eager result; differential execution of every split of every small member multiset into 2-3 blocks for all 23 "
+        "chunk-capable built-ins and 19 user aggregations (lawful and unlawful) against the Lean model, a NumPy oracle and eager flox.",
+        CORR, "DESIGN.md §7 C04"),
 ]
 
 _PENDING = "check not built yet in this round (planned: Lean model + correspondence, see DESIGN.md §7)"
